@@ -11,6 +11,11 @@ What is translated (every expression is re-generated from the source text, nothi
   * the inner tests `op_value == 0x1C` / `op_value == 0x22` guarding `add_xref_const_class` /
     `add_xref_new_instance`, and the read/write split of the field branch;
   * the members of `REF_TYPE` (name, value).
+Read semantically where local reasoning proves it equivalent (briefs/robust_translators.md): a tuple/set for a
+list in `in` tests; module-level int constants for literals; a test `f(op_value)` / `self.f(op_value)` whose
+callee (module-level function or method of Analysis) is a single `return <test>` is inlined; a branch body
+that delegates to a helper of this module is recognised through the helper (its calls and inner tests are
+read one level deep, with the parameter that receives `op_value`).
 A shape the translator does not recognise raises (recorded by the framework as a broken obligation).
 """
 import ast
@@ -19,44 +24,112 @@ import os
 PATH = ("androguard", "core", "analysis", "analysis.py")
 
 
-def _expr(e, var="op_value"):
-    """Python test over `var` and int literals -> Lean Bool expression over `op`"""
+class _Env:
+    """what local reasoning may look up: module-level int constants, module-level functions and the
+    methods of `Analysis` (for following a call one level)"""
+
+    def __init__(self, tree, cls):
+        self.consts, self.funcs, self.methods = {}, {}, {}
+        for n in tree.body:
+            if isinstance(n, ast.FunctionDef):
+                self.funcs[n.name] = n
+            if isinstance(n, ast.Assign) and len(n.targets) == 1 and isinstance(n.targets[0], ast.Name):
+                try:
+                    v = ast.literal_eval(n.value)
+                except Exception:  # noqa
+                    continue
+                if isinstance(v, int) and not isinstance(v, bool):
+                    self.consts[n.targets[0].id] = v
+        for n in cls.body:
+            if isinstance(n, ast.FunctionDef):
+                self.methods[n.name] = n
+
+    def resolve(self, call):
+        """(FunctionDef, parameter names without self) of a call to a module-level function or to a method
+        of Analysis through `self`; None when the callee is not defined in this module"""
+        f = call.func
+        if isinstance(f, ast.Name) and f.id in self.funcs:
+            d = self.funcs[f.id]
+            return d, [a.arg for a in d.args.posonlyargs + d.args.args]
+        if isinstance(f, ast.Attribute) and isinstance(f.value, ast.Name) and f.value.id == "self" and f.attr in self.methods:
+            d = self.methods[f.attr]
+            return d, [a.arg for a in d.args.posonlyargs + d.args.args][1:]
+        return None
+
+    def param_for(self, call, var):
+        """the callee's parameter that receives the caller's variable `var` (passed as a bare name), or None"""
+        r = self.resolve(call)
+        if r is None:
+            return None
+        d, params = r
+        for i, a in enumerate(call.args):
+            if isinstance(a, ast.Name) and a.id == var and i < len(params):
+                return params[i]
+        for k in call.keywords:
+            if isinstance(k.value, ast.Name) and k.value.id == var and k.arg in params:
+                return k.arg
+        return None
+
+
+def _pure_return(d):
+    """the expression of a function whose body is (docstring +) a single `return <expr>`; else None"""
+    body = list(d.body)
+    if body and isinstance(body[0], ast.Expr) and isinstance(body[0].value, ast.Constant) and isinstance(body[0].value.value, str):
+        body = body[1:]
+    if len(body) == 1 and isinstance(body[0], ast.Return) and body[0].value is not None:
+        return body[0].value
+    return None
+
+
+def _expr(e, var="op_value", env=None, depth=0):
+    """Python test over `var`, int literals and module-level int constants -> Lean Bool expression over
+    `op`.  A call `f(var)` to a module-level function / `self.f(var)` to a method of Analysis whose body is
+    a single `return <test>` is inlined (one level)."""
     if isinstance(e, ast.BoolOp):
         op = " || " if isinstance(e.op, ast.Or) else " && "
-        return "(" + op.join(_expr(v, var) for v in e.values) + ")"
+        return "(" + op.join(_expr(v, var, env, depth) for v in e.values) + ")"
     if isinstance(e, ast.UnaryOp) and isinstance(e.op, ast.Not):
-        return "(!" + _expr(e.operand, var) + ")"
+        return "(!" + _expr(e.operand, var, env, depth) + ")"
     if isinstance(e, ast.Compare):
         parts = []
         left = e.left
         for o, right in zip(e.ops, e.comparators):
-            parts.append(_cmp(left, o, right, var))
+            parts.append(_cmp(left, o, right, var, env))
             left = right
         return "(" + " && ".join(parts) + ")"
+    if isinstance(e, ast.Call) and env is not None and depth == 0 and not e.keywords and len(e.args) == 1 \
+            and isinstance(e.args[0], ast.Name) and e.args[0].id == var:
+        r = env.resolve(e)
+        if r is not None and len(r[1]) == 1:
+            body = _pure_return(r[0])
+            if body is not None:
+                return _expr(body, r[1][0], env, depth + 1)
     raise ValueError("unsupported test expression: " + ast.dump(e))
 
 
-def _atom(a, var):
+def _atom(a, var, env=None):
     if isinstance(a, ast.Name) and a.id == var:
         return "op"
+    if isinstance(a, ast.Name) and env is not None and a.id in env.consts and env.consts[a.id] >= 0:
+        return str(env.consts[a.id])
     if isinstance(a, ast.Constant) and isinstance(a.value, int) and not isinstance(a.value, bool) and a.value >= 0:
         return str(a.value)
     raise ValueError("unsupported operand: " + ast.dump(a))
 
 
-def _cmp(l, o, r, var):
+def _cmp(l, o, r, var, env=None):
     if isinstance(o, (ast.In, ast.NotIn)):
         if not isinstance(r, (ast.List, ast.Tuple, ast.Set)):
             raise ValueError("unsupported `in` operand: " + ast.dump(r))
-        body = "(" + " || ".join("%s == %s" % (_atom(l, var), _atom(x, var)) for x in r.elts) + ")" if r.elts else "false"
+        body = "(" + " || ".join("%s == %s" % (_atom(l, var, env), _atom(x, var, env)) for x in r.elts) + ")" if r.elts else "false"
         return body if isinstance(o, ast.In) else "(!" + body + ")"
     sym = {ast.LtE: "≤", ast.Lt: "<", ast.GtE: "≥", ast.Gt: ">"}
     if type(o) in sym:
-        return "decide (%s %s %s)" % (_atom(l, var), sym[type(o)], _atom(r, var))
+        return "decide (%s %s %s)" % (_atom(l, var, env), sym[type(o)], _atom(r, var, env))
     if isinstance(o, ast.Eq):
-        return "%s == %s" % (_atom(l, var), _atom(r, var))
+        return "%s == %s" % (_atom(l, var, env), _atom(r, var, env))
     if isinstance(o, ast.NotEq):
-        return "%s != %s" % (_atom(l, var), _atom(r, var))
+        return "%s != %s" % (_atom(l, var, env), _atom(r, var, env))
     raise ValueError("unsupported comparison: " + ast.dump(o))
 
 
@@ -75,14 +148,27 @@ def _calls(nodes):
     return names
 
 
+def _expanded(body, var, env):
+    """the statements of a branch and, one level deep, the bodies of the helpers of this module it calls:
+    [(statements, name of the opcode variable there or None)]"""
+    out = [(list(body), var)]
+    for n in body:
+        for x in ast.walk(n):
+            if isinstance(x, ast.Call):
+                r = env.resolve(x)
+                if r is not None:
+                    out.append((list(r[0].body), env.param_for(x, var)))
+    return out
+
+
 def _mentions(e, var="op_value"):
-    return any(isinstance(x, ast.Name) and x.id == var for x in ast.walk(e))
+    return var is not None and any(isinstance(x, ast.Name) and x.id == var for x in ast.walk(e))
 
 
 def extract(repo):
     path = os.path.join(repo, *PATH)
     tree = ast.parse(open(path).read(), path)
-    ref_types, fn = None, None
+    ref_types, fn, cls = None, None, None
     for node in tree.body:
         if isinstance(node, ast.ClassDef) and node.name == "REF_TYPE":
             ref_types = []
@@ -90,6 +176,7 @@ def extract(repo):
                 if isinstance(st, ast.Assign) and len(st.targets) == 1 and isinstance(st.targets[0], ast.Name):
                     ref_types.append((st.targets[0].id, ast.literal_eval(st.value)))
         if isinstance(node, ast.ClassDef) and node.name == "Analysis":
+            cls = node
             for st in node.body:
                 if isinstance(st, ast.FunctionDef) and st.name == "_create_xref":
                     fn = st
@@ -97,6 +184,7 @@ def extract(repo):
         raise ValueError("REF_TYPE is not an enum of int literals")
     if fn is None:
         raise ValueError("Analysis._create_xref not found")
+    env = _Env(tree, cls)
     # the instruction loop: the innermost `for` whose body assigns op_value
     loop = None
     for x in ast.walk(fn):
@@ -119,7 +207,10 @@ def extract(repo):
         break
     labelled = []
     for test, body in branches:
-        c = _calls(body)
+        exp = _expanded(body, "op_value", env)
+        c = set()
+        for stmts, _ in exp:
+            c |= _calls(stmts)
         if "add_xref_const_class" in c and "add_xref_new_instance" in c:
             lab = "classUse"
         elif "_resolve_method" in c:
@@ -130,28 +221,31 @@ def extract(repo):
             lab = "string"
         else:
             raise ValueError("unrecognised branch of the op_value chain: " + ast.unparse(test))
-        labelled.append((lab, test, body))
+        labelled.append((lab, test, exp))
     labs = [l for l, _, _ in labelled]
     if sorted(labs) != ["classUse", "field", "invoke", "string"]:
         raise ValueError("op_value chain branches are %r" % labs)
     inner = {}
-    for lab, test, body in labelled:
-        for x in ast.walk(ast.Module(body=body, type_ignores=[])):
-            if isinstance(x, ast.If) and _mentions(x.test):
-                c = _calls(x.body)
-                if lab == "classUse" and c == {"add_xref_const_class"}:
-                    inner.setdefault("constClass", x.test)
-                elif lab == "classUse" and c == {"add_xref_new_instance"}:
-                    inner.setdefault("newInstance", x.test)
-                elif lab == "field" and "add_field_xref_read" in c and "add_field_xref_write" not in c:
-                    inner.setdefault("fieldRead", x.test)
-                    w = _calls(x.orelse)
-                    if "add_field_xref_write" not in w:
-                        raise ValueError("field branch: the else part does not record a write")
+    for lab, test, exp in labelled:
+        for stmts, var in exp:
+            if var is None:
+                continue
+            for x in ast.walk(ast.Module(body=stmts, type_ignores=[])):
+                if isinstance(x, ast.If) and _mentions(x.test, var):
+                    c = _calls(x.body)
+                    if lab == "classUse" and c == {"add_xref_const_class"}:
+                        inner.setdefault("constClass", (x.test, var))
+                    elif lab == "classUse" and c == {"add_xref_new_instance"}:
+                        inner.setdefault("newInstance", (x.test, var))
+                    elif lab == "field" and "add_field_xref_read" in c and "add_field_xref_write" not in c:
+                        inner.setdefault("fieldRead", (x.test, var))
+                        w = _calls(x.orelse)
+                        if "add_field_xref_write" not in w:
+                            raise ValueError("field branch: the else part does not record a write")
     for k in ("constClass", "newInstance", "fieldRead"):
         if k not in inner:
             raise ValueError("inner test for %s not found" % k)
-    return ref_types, labelled, inner
+    return ref_types, labelled, inner, env
 
 
 CODE = {"classUse": 1, "invoke": 2, "string": 3, "field": 4}
@@ -159,17 +253,17 @@ FN = {"classUse": "isClassUse", "invoke": "isInvoke", "string": "isString", "fie
 
 
 def generate(repo):
-    ref_types, labelled, inner = extract(repo)
+    ref_types, labelled, inner, env = extract(repo)
     out = ["/- GENERATED by gen/xrefops.py from androguard/core/analysis/analysis.py"
            " (Analysis._create_xref, REF_TYPE). Do not edit. -/",
            "namespace AgVerif.Gen.XrefOps", ""]
     for lab, test, _ in labelled:
-        out.append("/-- `%s` -/" % ast.unparse(test).replace("-/", "- /"))
-        out.append("def %s (op : Nat) : Bool := %s" % (FN[lab], _expr(test)))
+        out.append("/-- test of the %s branch of the chain -/" % lab)
+        out.append("def %s (op : Nat) : Bool := %s" % (FN[lab], _expr(test, "op_value", env)))
         out.append("")
     for k, name in (("constClass", "isConstClass"), ("newInstance", "isNewInstance"), ("fieldRead", "isFieldRead")):
-        out.append("/-- `%s` -/" % ast.unparse(inner[k]))
-        out.append("def %s (op : Nat) : Bool := %s" % (name, _expr(inner[k])))
+        out.append("/-- inner test `%s` -/" % k)
+        out.append("def %s (op : Nat) : Bool := %s" % (name, _expr(inner[k][0], inner[k][1], env)))
         out.append("")
     out.append("/-- the `if / elif` chain of `_create_xref`, in source order:"
                " 1 class usage, 2 invoke, 3 string, 4 field, 0 no branch -/")
